@@ -349,7 +349,13 @@ func cmdCheck(args []string) int {
 		s := e.Stats
 		fmt.Printf("[%s] %s: paths=%d %v decisions=%d obligations=%d (unsat %d, sat %d; folded %d) queries=%d solver=%.1fs wall=%.1fs\n",
 			id, h.Func, s.Paths, s.PathsByOutcome, s.Decisions, s.Obligations, s.ObligUnsat, s.ObligSat, s.ObligFolded, s.SolverQueries, s.SolverTime.Seconds(), time.Since(th).Seconds())
+		if e.StoppedEarly {
+			fmt.Printf("NOTE: %s: exploration stopped 30 s after the first counterexample (the verdict is already a violation)\n", h.Func)
+		}
 		for _, l := range h.Reach {
+			if e.StoppedEarly {
+				break
+			}
 			if e.Reach[l] == 0 {
 				fmt.Printf("INCONCLUSIVE: %s: reach label %q was hit by no feasible path (vacuity guard)\n", h.Func, l)
 				problems++
